@@ -287,6 +287,11 @@ func (g *gm) expr(e ast.Expr) string {
 		if v, ok := g.consts[x.Name]; ok {
 			return "(.int " + v + ")"
 		}
+		// package-level sentinel errors (`var ErrX = errors.New(…)`), for the units that ask for it: the value "ErrX" itself, so that
+		// a translated CALLEE (which sees its receiver and parameters only) can return them too
+		if gmInlineErrs[g.module] && strings.HasPrefix(x.Name, "Err") && g.resolve(x.Name) == x.Name && !g.declared(x.Name) {
+			return "(.str " + strconv.Quote(x.Name) + ")"
+		}
 		return "(.var " + strconv.Quote(g.resolve(x.Name)) + ")"
 	case *ast.SelectorExpr:
 		if id, ok := x.X.(*ast.Ident); ok && g.pkgs[id.Name] {
@@ -997,6 +1002,19 @@ func genGoMini(module string, order []string, units map[string][]string, constFi
 	return b.String()
 }
 
+// gmInlineErrs: units in which the package-level sentinel errors are values of their own (see expr, *ast.Ident).
+var gmInlineErrs = map[string]bool{"GoFence": true}
+
+// declared: is the name declared in any scope of the function being translated?
+func (g *gm) declared(name string) bool {
+	for _, sc := range g.scopes {
+		if _, ok := sc[name]; ok {
+			return true
+		}
+	}
+	return false
+}
+
 // gmForeign: per unit, the receiver fields whose methods belong to other types.
 var gmForeign = map[string]map[string]bool{"GoAuthz": {"metadata": true, "cursors": true}, "GoFSM": {"metadata": true, "activity": true}}
 
@@ -1126,6 +1144,11 @@ func genGoMiniAll() []*leanFile {
 		[]string{sv + "partition.go"},
 		map[string][]string{sv + "partition.go": {"natsToProtoMessage", "getMessage", "computeTick"}},
 		[]string{sv + "partition.go"})})
+	out = append(out, &leanFile{name: "GoFence", raw: genGoMini("GoFence",
+		[]string{sv + "metadata.go"},
+		map[string][]string{sv + "metadata.go": {"metadataAPI.checkLeaderGeneration", "metadataAPI.partitionExists",
+			"metadataAPI.checkShrinkISRPreconditions", "metadataAPI.checkExpandISRPreconditions", "metadataAPI.checkChangeLeaderPreconditions"}},
+		[]string{sv + "metadata.go"})})
 	out = append(out, &leanFile{name: "GoFailover", raw: genGoMini("GoFailover",
 		[]string{sv + "failover.go", sv + "partition.go"},
 		map[string][]string{
